@@ -16,10 +16,12 @@ import (
 	stdjson "encoding/json"
 	"fmt"
 	"math/rand/v2"
+	"sort"
 	"strings"
 
 	schema "github.com/jsightapi/jsight-schema-core"
 	"github.com/jsightapi/jsight-schema-core/notations/jschema"
+	"github.com/jsightapi/jsight-schema-core/notations/jschema/ischema"
 	"github.com/jsightapi/jsight-schema-core/notations/regex"
 	"github.com/jsightapi/jsight-schema-core/openapi"
 	"github.com/jsightapi/jsight-schema-core/rules/enum"
@@ -104,6 +106,38 @@ func c10SharedRoot(pt project, types []schema.Schema, rules []*enum.Enum, drop m
 		fmt.Fprintf(&sb, "AST: %s %s\n", ab, c10ErrText(aerr))
 		used, uerr := s.UsedUserTypes()
 		fmt.Fprintf(&sb, "Used: %s %s\n", strings.Join(used, ","), c10ErrText(uerr))
+		// the compiled objects: members, where they come from, required keys, additionalProperties - of the root and
+		// of every (shared) type object as this root leaves it
+		dump := func(what string, js *jschema.JSchema) {
+			if js == nil || js.Inner == nil {
+				return
+			}
+			if on, ok := js.Inner.RootNode().(*ischema.ObjectNode); ok {
+				var d *c07Node
+				if pn := mon.Guard(func() { d = c07DumpNode(on) }); pn != nil {
+					fmt.Fprintf(&sb, "Compiled %s: panic %s\n", what, pn.Value)
+					return
+				}
+				var sortReq func(n *c07Node)
+				sortReq = func(n *c07Node) {
+					sort.Strings(n.Req)
+					for _, c := range n.Sub {
+						if c != nil {
+							sortReq(c)
+						}
+					}
+				}
+				sortReq(d)
+				db, _ := stdjson.Marshal(d)
+				fmt.Fprintf(&sb, "Compiled %s: %s\n", what, db)
+			}
+		}
+		dump("root", s)
+		for i, t := range pt.Types {
+			if js, ok := types[i].(*jschema.JSchema); ok && !drop[i] {
+				dump(t.Name, js)
+			}
+		}
 		if pn := mon.Guard(func() {
 			ob, oerr := openapi.NewSchemaObject(s).MarshalJSON()
 			fmt.Fprintf(&sb, "OpenAPI: %s %s\n", ob, c10ErrText(oerr))
